@@ -52,6 +52,7 @@ MUTANTS = {
     "r06": ("C06", [("revert", "462a8cb"), ("revert", "dbf66b8")]), "r06c": ("C06", [("revert", "462a8cb")]), "r05": ("C05", [("revert", "f6085d3")]), "r11c": ("C11", [("revert", "eb449ba")]),
     "r06b": ("C05", [("revert", "462a8cb"), ("revert", "dbf66b8")]),
     "r11i": ("C11", [("revert", "fae71fe")]),
+    "r10s": ("C10", [("revert", "d3bd293")]),
     "r02e": ("C02", [("revert", "0ae5b82")]), "r05e": ("C05", [("revert", "0ae5b82")]),
     # extras
     "x17a": ("C17", [sub("verify.py", "        (len(implemented['positional']) < len(required['positional'])) and", "        (len(implemented['positional']) + 1 < len(required['positional'])) and")]),
